@@ -201,6 +201,12 @@ fn check_single(ctx: &mut Ctx, r: &Rectangle, sizes: &[(u32, u32)], offsets: &[i
             ctx.violation("rect|contains", case, || format!("contains(({},{})) = {} expected {}", px, py, got, !got));
             break;
         }
+        // the same question through the ContainsPoint trait (what generic code calls)
+        let via_trait = embedded_graphics::primitives::ContainsPoint::contains(&*r, Point::new(px as i32, py as i32));
+        if via_trait != got {
+            ctx.violation("rect|contains|trait-differs-from-inherent", case, || format!("ContainsPoint::contains(({},{})) = {}, Rectangle::contains = {}", px, py, via_trait, got));
+            break;
+        }
     }
     // points(): row-major enumeration of the set
     if enumerate {
